@@ -3,6 +3,7 @@
    integer field Rec.fld injected through data_K.kpoints_all) and what the real run() returned for it:
      Rec.irr  = Ntot * (integrated result of the irreducible + symmetrised run), rounded after an integrality check
      Rec.full = Ntot * (integrated result of the full unsymmetrised run)
+     Rec.symonly = Ntot * (integrated result of the full run with symmetrisation, use_irred_kpt=False, symmetrize=True)
      Rec.tabirr / Rec.tabfull = tabulated values after to_grid, per grid point in flat order (x outermost) *)
 EXTENDS IrredKernel, Json, IOUtils, TLCExt
 VARIABLE i
@@ -15,6 +16,7 @@ Clauses ==
        Fld == [p \in GridPts(N) |-> NormT(r, Rec.fld[FlatIndex(p, N) + 1])]
        kl == KList(div, G, TRUE)
        ks == KSetsOf(kl, div, fft, TRUE)
+       kf == KList(div, G, FALSE)
        gsum == GridSum(Fld, N, r)
    IN
    [ shape           |-> Len(Rec.fld) = Prod3(N) /\ Len(Rec.tabirr) = Prod3(N) /\ Len(Rec.tabfull) = Prod3(N),
@@ -22,6 +24,8 @@ Clauses ==
      full_is_gridsum |-> NormT(r, Rec.full) = gsum,
      irr_equals_full |-> NormT(r, Rec.irr) = NormT(r, Rec.full),
      irr_is_spec     |-> IrrIntegral(kl, ks, Fld, G, r, tTR, tInv) = NormT(r, ScaleT(r, Cardinality(G), NormT(r, Rec.irr))),
+     symonly_equals_full |-> NormT(r, Rec.symonly) = NormT(r, Rec.full),
+     symonly_is_spec |-> IrrIntegral(kf, KSetsOf(kf, div, fft, TRUE), Fld, G, r, tTR, tInv) = NormT(r, ScaleT(r, Cardinality(G), NormT(r, Rec.symonly))),
      tab_irr         |-> \A p \in GridPts(N) : NormT(r, Rec.tabirr[FlatIndex(p, N) + 1]) = Fld[p],
      tab_full        |-> \A p \in GridPts(N) : NormT(r, Rec.tabfull[FlatIndex(p, N) + 1]) = Fld[p],
      tab_is_spec     |-> TabReproduces(TabCollect(ks, Fld, N, G, r, tTR, tInv), Fld, N, r) ]
